@@ -21,6 +21,13 @@ OPS = {
     'clear': ['l_clear', 'd_clear'],
     'reverse': ['l_reverse'],
     'popitem': ['d_popitem'],
+    'sort': ['l_sort'],
+    'insert': ['l_insert'],
+    'delIdx': ['l_delitem', 'l_pop'],
+    'remove': ['l_remove'],
+    'setSlice': ['l_setitem'],
+    'delSlice': ['l_delitem'],
+    'imul': ['l_imul'],
 }
 
 
@@ -97,6 +104,18 @@ def invalidate_on_write(ltree, dtree, btree):
   return not missing, missing
 
 
+def del_index_normalized(ltree):
+  """`List.__delitem__` reports a negative index as the position (fix C09-F110):
+  `indices = [index + len(self) if index < 0 else index]`."""
+  fn = common.find_func(common.find_class(ltree, 'List'), '__delitem__')
+  src = ast.unparse(fn)
+  if 'indices = [index]' in src:
+    return False
+  if 'indices = [index + len(self) if index < 0 else index]' in src:
+    return True
+  raise TranslatorError('List.__delitem__: the construction of `indices` for an int index was not recognised')
+
+
 def run():
   info = t_c08.run()
   table = info['sidecar']['table']
@@ -106,6 +125,7 @@ def run():
   _, ltree = common.parse_source(t_c08.LIST_PY)
   _, dtree = common.parse_source(t_c08.DICT_PY)
   inv, inv_missing = invalidate_on_write(ltree, dtree, btree)
+  deln = del_index_normalized(ltree)
   L = ['/- GENERATED by translate/t_c09.py from pyglove/core/symbolic/{base,list,dict,object}.py. Do not edit. -/',
        'import PgModel.Notify', 'namespace Pg.C09', '',
        '/-- Notification kind of the entry points behind each model operation. -/',
@@ -117,9 +137,11 @@ def run():
         f'def genResetOnSkip : Bool := {common.lean_bool(ros)}', '',
         '/-- Every write to the contents of a node (write primitives, `del`, `clear`, `sort`, `reverse`,',
         '`popitem`) invalidates the memoised facts of the node and of its ancestors. -/',
-        f'def genInvalidateOnWrite : Bool := {common.lean_bool(inv)}', '', 'end Pg.C09', '']
+        f'def genInvalidateOnWrite : Bool := {common.lean_bool(inv)}', '',
+        '/-- `del l[i]` with a negative `i` reports the position `i + len`, not the key `i`. -/',
+        f'def genDelIndexNormalized : Bool := {common.lean_bool(deln)}', '', 'end Pg.C09', '']
   sidecar = {'sources': info['sidecar']['sources'], 'reset_on_skip': ros, 'invalidate_on_write': inv,
-             'invalidate_missing_at': inv_missing,
+             'invalidate_missing_at': inv_missing, 'del_index_normalized': deln,
              'notify': {op: [table[e]['notify'] for e in eps] for op, eps in OPS.items()}}
   changed = common.write_gen('C09Facts', '\n'.join(L), sidecar)
   return {'changed': changed, 'sidecar': sidecar}
